@@ -200,3 +200,13 @@ Qed.
 Theorem copy_actions_d_otherwise : forall d fc src dst e,
   d = false \/ ce_dst_exists e = true -> copy_actions_d d fc src dst e = copy_actions fc src dst e.
 Proof. intros d fc src dst e [->|He]; unfold copy_actions_d; [now rewrite Bool.andb_false_r|now rewrite He]. Qed.
+
+(* a directory found where a regular file is to be written is refused before any mutating action *)
+Theorem copy_onto_directory_refused : forall dg fc src dst e,
+  ce_dst_exists e = true -> ce_same_file e = false ->
+  snd (copy_actions_dd dg true fc src dst e) = false /\
+  forall a, In a (fst (copy_actions_dd dg true fc src dst e)) -> mutated a = [].
+Proof.
+  intros dg fc src dst e He Hs. unfold copy_actions_dd. rewrite He, Hs. cbn [negb andb fst snd]. split; [reflexivity|].
+  intros a Ha. repeat (destruct Ha as [<-|Ha]; [reflexivity|]). destruct Ha.
+Qed.
